@@ -111,22 +111,37 @@ class _PipeConn:
 
 def run_history(arg) -> dict:
     """a fresh process per history (plain fork: pool workers may not start multiprocessing children)"""
+    history, adversarial = arg
+    return run_isolated(_history_child, (history, adversarial))
+
+
+def run_isolated(child, args: tuple, limit: float = 60.0) -> dict:
     import pickle
     import select
     import signal
     import time
-    history, adversarial = arg
     r, w = os.pipe()
     pid = os.fork()
     if pid == 0:
         os.close(r)
         try:
-            _history_child(_PipeConn(w), history, adversarial)
+            dn = os.open(os.devnull, os.O_WRONLY)
+            os.dup2(dn, 2)        # igraph / ANTLR console noise
+        except OSError:
+            pass
+        try:
+            child(_PipeConn(w), *args)
+        except BaseException:
+            import traceback
+            try:
+                _PipeConn(w).send({"_error": "child raised: " + traceback.format_exc()[-1500:]})
+            except Exception:
+                pass
         finally:
             os._exit(0)
     os.close(w)
     buf = b""
-    deadline = time.time() + 60
+    deadline = time.time() + limit
     out = None
     try:
         while True:
@@ -211,7 +226,7 @@ def main() -> int:
         if r.get("_timeout"):
             continue
         last = r["results"][-1]
-        cases.append({"events": r["events"], "live": last["digest"], "fresh": fresh[h[-1]], "mutated": bool(last["mutated"])})
+        cases.append({"events": r["events"], "pairs": [{"live": last["digest"], "fresh": fresh[h[-1]]}], "mutated": bool(last["mutated"])})
         meta.append(h)
     for i, kind, l in validate(rep, cases, "main"):
         rep.violation("history:" + kind, {"history": [list(x) for x in meta[i]], "event_index": l,
@@ -221,10 +236,10 @@ def main() -> int:
     good = [c for c in cases if any(e["e"] == "cache-hit" for e in c["events"])][:2] or cases[:2]
     muts = []
     for c in good:
-        m = json.loads(json.dumps(c)); m["live"] = "x" * 20; muts.append(m)
+        m = json.loads(json.dumps(c)); m["pairs"][0]["live"] = "x" * 20; muts.append(m)
         m = json.loads(json.dumps(c)); m["mutated"] = True; muts.append(m)
     stale = {"events": [{"e": "alloc", "g": 1, "k": ""}, {"e": "cache-clear", "g": 1, "k": ""}, {"e": "cache-miss", "g": 1, "k": "2,3"}, {"e": "cache-store", "g": 1, "k": "2,3"},
-                        {"e": "alloc", "g": 1, "k": ""}, {"e": "cache-hit", "g": 1, "k": "2,3"}], "live": "a", "fresh": "a", "mutated": False}
+                        {"e": "alloc", "g": 1, "k": ""}, {"e": "cache-hit", "g": 1, "k": "2,3"}], "pairs": [{"live": "a", "fresh": "a"}], "mutated": False}
     muts.append(stale)
     tmp = common.Report("C11"); tmp.known = []
     got = validate(tmp, muts, "selftest")
